@@ -116,13 +116,19 @@ def sortIns (l : List Entry) : List Entry :=
 def addAgent (e : Entry) (ag : List Entry) : List Entry :=
   ag.filter (fun o => o.key != e.key) ++ sortIns (addAgentKey e (ag.filter (fun o => o.key == e.key)))
 
+/-- The table entry built from advertised route `r` of advertisement `a` received from `frm`. -/
+def mkEntry (r : RAd) (a : Adv) (frm clock : Nat) : Entry :=
+  { kind := r.kind, key := r.key, origin := a.origin, nextHop := frm,
+    metric := inc16 r.metric, path := a.path, seq := a.seq, lu := clock }
+
 /-- Process{,Domain,Forward,Agent}RouteAdvertise for one advertised route. -/
 def storeRoute (self frm : Node) (a : Adv) (clock : Nat) (st : NodeSt) (r : RAd) : NodeSt :=
-  let e : Entry := { kind := r.kind, key := r.key, origin := a.origin, nextHop := frm,
-                     metric := inc16 r.metric, path := a.path, seq := a.seq, lu := clock }
   if self ∈ a.path then st
-  else if r.kind = 3 then { st with agents := addAgent e st.agents }
-  else { st with tab := addTab e st.tab }
+  else if r.kind = 3 then { st with agents := addAgent (mkEntry r a frm clock) st.agents }
+  else { st with tab := addTab (mkEntry r a frm clock) st.tab }
+
+/-- Every stored route of a node (all four tables). -/
+def NodeSt.entries (st : NodeSt) : List Entry := st.tab ++ st.agents
 
 /-! ### HandleRouteAdvertise -/
 
@@ -348,6 +354,11 @@ def openWalk (lk : Node → Node → Bool) : Node → List Node → Option Node
   | cur, y :: rest =>
     if rest = [] ∧ y = cur then some cur
     else if lk cur y then openWalk lk y rest else none
+
+/-- Consecutive agents are linked: `cur — p[0] — p[1] — …`. -/
+def chainOK (lk : Node → Node → Bool) : Node → List Node → Bool
+  | _, [] => true
+  | cur, y :: rest => lk cur y && chainOK lk y rest
 
 /-- The ingress: send to `route.NextHop` with `route.Path[1:]`. -/
 def openRoute (lk : Node → Node → Bool) (x : Node) (e : Entry) : Option Node :=
